@@ -13,4 +13,5 @@ INVARIANT Complete
 INVARIANT Sound
 INVARIANT PropSound
 INVARIANT PolesFew
+INVARIANT TblLkOnlyRE
 CHECK_DEADLOCK FALSE
